@@ -2,32 +2,25 @@ import ErgoVerif.Lemmas.EdfTop
 namespace ErgoVerif.Edf
 open ErgoVerif.Generated.Edt
 
-/-- no map type inside the descriptor is keyed by an unnamed slice/array/map type -/
-def Ty.keysFlat : Ty → Prop
-  | .slice t => t.keysFlat
-  | .array _ t => t.keysFlat
-  | .map k v => k.composite = false ∧ k.keysFlat ∧ v.keysFlat
-  | _ => True
-
-theorem DescOK_of_WF (o : Opts) : (t : Ty) → DescWF o t → t.keysFlat → DescOK o t
-  | .slice t, h, hk => by simp only [DescOK, DescWF, Ty.keysFlat] at *; exact DescOK_of_WF o t h hk
-  | .array n t, h, hk => by
-    simp only [DescOK, DescWF, Ty.keysFlat] at *
-    exact ⟨h.1, h.2.1, DescOK_of_WF o t h.2.2 hk⟩
-  | .map k v, h, hk => by
-    simp only [DescOK, DescWF, Ty.keysFlat] at *
-    exact ⟨hk.1, h.1, DescOK_of_WF o k h.2.1 hk.2.1, DescOK_of_WF o v h.2.2 hk.2.2⟩
-  | .named _ _, h, _ => by simpa [DescOK, DescWF] using h
-  | .struct _ _, h, _ => by simpa [DescOK, DescWF] using h
-  | .marsh _ _, h, _ => by simpa [DescOK, DescWF] using h
-  | .bool, _, _ | .num _, _, _ | .str, _, _ | .bin, _, _ | .atom, _, _ | .idr _, _, _ | .idn _, _, _
-  | .time, _, _ | .error, _, _ | .any, _, _ => by simp [DescOK]
+/-- after the D27 fix every comparable key type unfolds: `DescOK` is `DescWF` -/
+theorem DescOK_of_WF (o : Opts) : (t : Ty) → DescWF o t → DescOK o t
+  | .slice t, h => by simp only [DescOK, DescWF] at *; exact DescOK_of_WF o t h
+  | .array n t, h => by
+    simp only [DescOK, DescWF] at *
+    exact ⟨h.1, h.2.1, DescOK_of_WF o t h.2.2⟩
+  | .map k v, h => by
+    simp only [DescOK, DescWF] at *
+    exact ⟨h.1, DescOK_of_WF o k h.2.1, DescOK_of_WF o v h.2.2⟩
+  | .named _ _, h => by simpa [DescOK, DescWF] using h
+  | .struct _ _, h => by simpa [DescOK, DescWF] using h
+  | .marsh _ _, h => by simpa [DescOK, DescWF] using h
+  | .bool, _ | .num _, _ | .str, _ | .bin, _ | .atom, _ | .idr _, _ | .idn _, _
+  | .time, _ | .error, _ | .any, _ => by simp [DescOK]
 
 mutual
-/-- outside the two defect regions of the current code: no non-empty collection of zero-width elements, no dynamic
-    map type keyed by an unnamed composite -/
+/-- outside the defect region of the current code: no non-empty collection of zero-width elements -/
 def Excl : Ty → Val → Prop
-  | .any, .any t v => t.keysFlat ∧ Excl t v
+  | .any, .any t v => Excl t v
   | .slice t, .list vs => (t.nz = true ∨ vs.length = 0) ∧ Excls t vs
   | .array n t, .list vs => (t.nz = true ∨ n = 0) ∧ Excls t vs
   | .map k v, .map ps => (k.nz = true ∨ v.nz = true ∨ ps.length = 0) ∧ Exclp k v ps
@@ -54,7 +47,7 @@ theorem Good_of_WF (o : Opts) : (v : Val) → (t : Ty) → WF o t v → Excl t v
     case named nm t'' => cases t'' <;> simpa [Good, WF] using hw
     case any =>
       simp only [WF, Excl, Good] at *
-      exact ⟨DescOK_of_WF o t' hw.1 hx.1, hw.2.1, Good_of_WF o v' t' hw.2.2 hx.2⟩
+      exact ⟨DescOK_of_WF o t' hw.1, hw.2.1, Good_of_WF o v' t' hw.2.2 hx⟩
     all_goals (simpa [Good, WF] using hw)
   | .list vs, t, hw, hx => by
     cases t
